@@ -5,6 +5,8 @@
 // (B); observed results must agree bit for bit. Perturbations must leave the recipe's argument
 // objects (read back through serialisation/digests) unchanged.
 #include "worldgen.hpp"
+#include "OutputFormat/AOF.hpp"
+#include <unistd.h>
 #include "store_classes.hpp"
 #include "Basic/ICloneable.hpp"
 
@@ -98,8 +100,8 @@ std::string readBack(const World& W)
 // ---------------------------------------------------------------- observed calls
 const char* OBS10[] = {"covmat", "covmat-optim", "covmat-symoptim", "kriging", "xvalid", "vario", "vario-fit", "migrate", "frombox", "addrandom",
                        "simgauss", "simtub", "simtub-nc", "simfft", "kcalc", "kcalc", "kriging", "kcalc", "kcalc", "kriging",
-                       "vario-gen", "vario-gen", "vario-dirs", "simpgs", "simbipgs"};
-const int NOBS10 = 25;
+                       "vario-gen", "vario-gen", "vario-dirs", "simpgs", "simbipgs", "grid-exchange"};
+const int NOBS10 = 26;
 const char* OBS13[] = {"simtub", "simtub-nc", "simfft", "gibbs", "simtub", "simtub-nc", "simpgs", "simpgs", "gibbs", "simbipgs"};
 const int NOBS13 = 10;
 
@@ -361,6 +363,54 @@ Observed observe(World& W, const Op& op, int seedShift, Ctx* c, bool judge13, lo
       delete v;
     }
     else d.s("null-vario");
+    delete g;
+    defineDefaultSpace(ESpaceType::RN, nd0);
+    o.digest = d.hex();
+    return o;
+  }
+  if (k == "grid-exchange")
+  {
+    // a small grid written and read back through an exchange format whose reader tokenises with the process-wide
+    // delimiters of _record_read (IfpEn, or Zycor which sets and restores its own)
+    int nd0 = getDefaultSpaceDimension();
+    defineDefaultSpace(ESpaceType::RN, 2);
+    DbGrid* g = DbGrid::create({3 + (int)(a % 3), 2 + (int)(b % 3)}, {1., 2.}, {5., -3.});
+    VectorDouble z(g->getSampleNumber());
+    uint64_t s = (uint64_t)seed * 2654435761u + 29;
+    for (auto& v : z) { s = s * 6364136223846793005ULL + 1442695040888963407ULL; v = (double)((s >> 33) % 2000) / 100. - 10.; }
+    g->addColumns(z, "zg", ELoc::Z);
+    std::string path = "/dev/shm/simkit-world." + std::to_string((long)getpid()) + ".dat";
+    int icol = g->getColumnNumber() - 1;
+    DbGrid* back = nullptr;
+    if (a % 3 == 2)
+    {
+      // F2G has a reader only: a valid file written after its grammar (blank-separated tokens)
+      FILE* f = fopen(path.c_str(), "w");
+      if (f)
+      {
+        fprintf(f, "F2G_DIM 2\nF2G_VERSION 1\nF2G_LOCATION 5. -3. 0.\nF2G_ROTATION 0.\nF2G_ORIGIN 0. 0.\nF2G_NB_NODES %d %d\nF2G_LAGS 1. 2.\n", g->getNX(0), g->getNX(1));
+        fprintf(f, "F2G_ORDER +Y +X +Z\nF2G_NB_VARIABLES 1\nF2G_VARIABLE_1 zg\nF2G_UNDEFINED_1 -999\nF2G_VALUES\n");
+        for (size_t i = 0; i < z.size(); i++) fprintf(f, "%.2f%s", z[i], (i % 5 == 4) ? "\n" : " ");
+        fprintf(f, "\n");
+        fclose(f);
+      }
+      back = db_grid_read_f2g(path.c_str(), 0);
+    }
+    else if (a % 3 == 0)
+    {
+      int ic[1] = {icol};
+      d.i(db_grid_write_ifpen(path.c_str(), g, 1, ic));
+      back = db_grid_read_ifpen(path.c_str(), 0);
+    }
+    else
+    {
+      d.i(db_grid_write_zycor(path.c_str(), g, icol));
+      back = db_grid_read_zycor(path.c_str(), 0);
+    }
+    d.s(back ? dbDigest(back) : "null-grid");
+    if (getenv("SIMKIT_DEBUG_SIM")) fprintf(stderr, "grid-exchange a=%ld back=%s\n", a, back ? "grid" : "null");
+    unlink(path.c_str());
+    delete back;
     delete g;
     defineDefaultSpace(ESpaceType::RN, nd0);
     o.digest = d.hex();
@@ -747,8 +797,8 @@ const char* PERTS[] = {"p.covmat-masked",   "p.covmat-other",   "p.kriging-clone
                        "p.opt-cst",         "p.opt-sparse",     "p.space-toggle",   "p.vario-other",    "p.fft-other",     "p.loadnf-missing",
                        "p.cols-add-del",    "p.roles-set-clear", "p.sel-add-del",   "p.model-add-del",  "p.model-range",   "p.calc-injected",
                        "p.heap-churn",      "p.optim-toggle",   "p.xvalid-clone",   "p.selrandom-other", "p.container",
-                       "p.copysem",         "p.copysem"};
-const int NPERTS = 31;
+                       "p.copysem",         "p.copysem",        "p.exchange-refused"};
+const int NPERTS = 32;
 
 // a second, unrelated small world
 void otherWorld(World& O, long salt, int ndim)
@@ -1084,6 +1134,35 @@ void perturb(World& W, const Op& op, Ctx& c)
     else c.count("skipped.class-not-cloneable");
     c.count("fault.copy-mutated");
   }
+  else if (k == "p.exchange-refused")
+  {
+    // a grid exchange file refused half-way (cut inside its header), in each format
+    DbGrid* g = DbGrid::create({3, 2});
+    VectorDouble z(g->getSampleNumber(), 1.5);
+    g->addColumns(z, "zq", ELoc::Z);
+    std::string path = "/dev/shm/simkit-world." + std::to_string((long)getpid()) + ".cut";
+    int icol = g->getColumnNumber() - 1;
+    int ic[1] = {icol};
+    int which = (int)(a % 3);
+    if (which == 0) (void)db_grid_write_zycor(path.c_str(), g, icol);
+    else if (which == 1) (void)db_grid_write_ifpen(path.c_str(), g, 1, ic);
+    else (void)db_grid_write_bmp(path.c_str(), g, icol);
+    {
+      // keep the first bytes only
+      FILE* f = fopen(path.c_str(), "rb");
+      std::string bytes;
+      if (f) { char buf[4096]; size_t n; while ((n = fread(buf, 1, sizeof buf, f)) > 0) bytes.append(buf, n); fclose(f); }
+      size_t keep = 30 + (size_t)(b % 60);
+      if (keep < bytes.size()) bytes.resize(keep);
+      f = fopen(path.c_str(), "wb");
+      if (f) { fwrite(bytes.data(), 1, bytes.size(), f); fclose(f); }
+    }
+    DbGrid* back = which == 0 ? db_grid_read_zycor(path.c_str(), 0) : (which == 1 ? db_grid_read_ifpen(path.c_str(), 0) : db_grid_read_bmp(path.c_str(), 0));
+    c.count(back ? "probe.cut-exchange-file-loaded" : "fault.exchange-file-refused");
+    delete back;
+    unlink(path.c_str());
+    delete g;
+  }
   else if (k == "p.container")
   {
     ASerializable::setContainerName(false, "/tmp/simkit-nowhere/");
@@ -1098,7 +1177,7 @@ bool globalOnly(const std::string& k)
 {
   return k == "p.rng-draws" || k == "p.rng-style" || k == "p.sim-otherseed" || k == "p.opt-dbg" || k == "p.opt-cst" || k == "p.opt-sparse" ||
          k == "p.vario-other.g" || k == "p.fft-other" || k == "p.loadnf-missing" || k == "p.heap-churn" || k == "p.container" || k == "p.copy-vector.g" ||
-         k == "p.copysem";
+         k == "p.copysem" || k == "p.exchange-refused";
 }
 
 void execWorld(const Plan& p, Ctx& c, bool bare, const std::string& prop)
